@@ -100,7 +100,7 @@ def frac8 (k : Nat) : Str :=
   | 0 => [48] | 1 => [49, 50, 53] | 2 => [50, 53] | 3 => [51, 55, 53]
   | 4 => [53] | 5 => [54, 50, 53] | 6 => [55, 53] | _ => [56, 55, 53]
 
-/-- `str(n / 8)` for a Python float of magnitude below 1e16 (positional notation): the text a
+/-- `str(n / 8)` for a Python float of magnitude below 2^46 (all three decimals are printed): the text a
 `Val.num n` stands for in the real message -/
 def renderGrid (n : Int) : Str :=
   let a := n.natAbs
